@@ -48,7 +48,7 @@ type Report struct {
 
 // New creates a report.
 func New(prop string) *Report {
-	return &Report{Prop: prop, Counts: map[string]int{}, Floors: map[string]int{}}
+	return &Report{Prop: prop, Counts: map[string]int{}, Floors: map[string]int{}, Extra: map[string]any{}}
 }
 
 func (r *Report) add(rule, construct, pos, status, detail string, nt bool) {
